@@ -93,6 +93,15 @@ reg("C18", "round-trip monitor: real serialize/deserialize of every policy class
     "sampled configurations.",
     "Trusts the filesystem and jax.effects_barrier() for the debug-callback write; dotted file names are read as 'path spellings without the .eqx suffix'.")
 
+reg("C16", "reference-model monitor: masked distributions and policies called with masks, judged by a float64 NumPy model (own forward pass over the policy weights); exhaustive over all non-empty masks for small action counts; exact binomial bound for epsilon-greedy",
+    "Held on every case explored: for Categorical/MultiCategorical/Bernoulli under every non-empty mask of small action counts (run completely) masked "
+    "entries get probability exactly 0 and log-prob -inf, the rest is renormalised proportionally, neither 512 samples nor the mode are ever masked; "
+    "the same end-to-end through MLPActorCriticPolicy (Discrete, MultiDiscrete, MultiBinary), MLPQPolicy and a table Q policy (epsilon 0/0.1/0.5/1), "
+    "key-less calls return the allowed argmax identically across eager/jit/vmap, keyed calls report the log-prob of the returned action, the "
+    "non-greedy frequency respects epsilon, and PPO/A2C rollouts on masked MDPs record and honour the mask.",
+    "Trusts a NumPy forward pass over the policy's own weights; near-tied greedy cases are skipped; squashed-Gaussian 'mode' is the image of the mean "
+    "(SAC convention); masks in off-policy collection are observed but not judged (no given property covers them).")
+
 
 def main():
     props = [json.loads(l) for l in (ROOT / "properties.jsonl").read_text().splitlines() if l.strip()]
